@@ -617,6 +617,34 @@ def r19_11(chk, P):
                     # the bound is expressed over the handle parameter, which is passed on in the same slot
                     res += plain_accepts(G, j, bound_canon, depth + 1)
         return res
+    def plain_bounds(S, pos_idx, depth=0):
+        """canonical forms of everything the plain seek compares its position with on the way to a success return"""
+        defs = common.single_defs(S)
+        out = set()
+        pn = 'P%d' % pos_idx
+        for e in S.nodes('ret'):
+            nd = S.ex[e]
+            if nd.get('c') and common.const_val(S, nd['c'][0]) == 0:
+                for c, pol in common.atomic_conditions(S, e):
+                    cn = S.ex[S.strip_casts(c)]
+                    if cn['k'] != 'bin' or cn['op'] not in EQ:
+                        continue
+                    a, b = canon(S, cn['c'][0], defs), canon(S, cn['c'][1], defs)
+                    if a == pn and b != '0' and ('.' in b or '(' in b):
+                        out.add(b)
+                    elif b == pn and a != '0' and ('.' in a or '(' in a):
+                        out.add(a)
+        if out or depth >= 2:
+            return out
+        for c in S.calls():
+            d = S.ex[c]['callee'].get('d')
+            G = P.get(d, S) if d else None
+            if G is None or not G.file.endswith('vorbisfile.c'):
+                continue
+            for j, a in enumerate(S.ex[c].get('c', [])):
+                if canon(S, a, defs) == pn and j < len(G.params):
+                    out |= plain_bounds(G, j, depth + 1)
+        return out
     n = 0
     for H in P.functions():
         if not H.file.endswith('vorbisfile.c') or H.entry is None:
@@ -658,6 +686,13 @@ def r19_11(chk, P):
                     theirs = plain_accepts(S, 1, bound)
                     n += 1
                     if not theirs:
+                        others = plain_bounds(S, 1)
+                        if others:
+                            chk.ob('R19.11', G.name, f'bound-agrees-with:{S.name}', False, G.where(c),
+                                   f'{H.name} refuses positions beyond `{G.s(cargs[bi])}`, but {S.name} validates its position against '
+                                   f'{sorted(others)} and never against that quantity: the lapped seek and its plain counterpart '
+                                   'disagree for the positions between the two bounds')
+                            continue
                         chk.assumed('R19.11', G.name, f'bound-agrees-with:{S.name}', G.where(c),
                                     f'{S.name} has no comparison of its position with `{G.s(cargs[bi])}` on its success path (it finds the '
                                     'range by a search); the early test is then only required not to precede... nothing to compare')
